@@ -30,7 +30,7 @@ def frames(prop):
         impl='impl State'))
     add({'C08', 'C09', 'C13'}, lambda: F.in_order(
         'frame/stabilise_end-order', 'src/state.rs', 'stabilise_end',
-        [r'stabilisation_num\s*\.\s*set\(', r'set_var_stabilise_end\(\)', r'break_rc_cycle\(\)', r'\.node_update\(\)',
+        [r'stabilisation_num\s*\.\s*set\(', r'set_var_stabilise_end\(\)', r'break_rc_cycle\(\)', r'is_in_handle_after_stabilisation\(\)\s*\.\s*set\(\s*false\s*\)', r'\.node_update\(\)',
          r'self\.status\.set\(\s*IncrStatus::RunningOnUpdateHandlers\s*\)', r'\.run_on_update_handlers\(',
          r'self\.status\.set\(\s*IncrStatus::NotStabilising\s*\)'], impl='impl State'))
 
